@@ -110,11 +110,15 @@ func ruleProtoWireTypes(c *Ctx) {
 func init() {
 	register(&propInfo{
 		ID:          "C12",
-		Explanation: "Decides the structural clauses of proto-compatible mode: (X.who.option) each option field is read at exactly one decision point, on the method's own receiver (each switch changes only its own encoding); (X.dom.option) setting ProtoCompatibleArrays (or the proto tag) selects ProtoSliceWrapper and otherwise WTLengthSliceWrapper, ProtoCompatibleTime selects TimeCompatCodec and otherwise TimeCodec - a negated, ignored or constant-folded option does not count; (T.protowt) ProtoMapCodec, ProtoSliceWrapper and TimeCompatCodec report wire type 2 and nobody reports the deprecated wire type 4; (X.dom.repeated) the default slice reader dispatches wt == WTLength to a reader that reads one element and appends it; (S.spec/S.law, from EMIT) the proto-mode emission grammars are the protobuf ones and every length is exact.",
+		Explanation: "Decides the structural clauses of proto-compatible mode: (X.who.option) each option field is read at exactly one decision point, on the method's own receiver (each switch changes only its own encoding); (X.dom.option) setting ProtoCompatibleArrays (or the proto tag) selects ProtoSliceWrapper and otherwise WTLengthSliceWrapper, ProtoCompatibleTime selects TimeCompatCodec and otherwise TimeCodec - a negated, ignored or constant-folded option does not count; (T.protowt) ProtoMapCodec, ProtoSliceWrapper and TimeCompatCodec report wire type 2 and nobody reports the deprecated wire type 4; (X.dom.repeated) the default slice reader dispatches wt == WTLength to a reader that reads one element and appends it; (S.spec/S.law, from EMIT) the proto-mode emission grammars are the protobuf ones and every length is exact. (X.state, X.who.registries) no package-level or otherwise shared mutable state through which one instance's switches could reach another instance's codecs.",
 		NotDecided:  "Cross-configuration round trips as values; conformance of the bytes with a real protobuf implementation beyond the grammar.",
 		Assumptions: []string{"A4", "A5"},
 		Run: func(c *Ctx) {
 			ruleOptionScope(c)
+			// "each switch changes only its own encoding": no state shared between instances through which one
+			// instance's options could reach another's codecs
+			ruleSharedStateInventory(c)
+			ruleDefaultPlencScope(c)
 			ruleProtoWireTypes(c)
 			ruleRepeatedReader(c)
 			ruleGrowth(c)
